@@ -89,11 +89,12 @@ pub fn run_prompt(args: Vec<String>) {
                     }
                 };
 
+                // a line rejected by the compiler must leave no bindings behind
+                let saved = (symtab.clone(), constants.clone());
                 let mut compiler = Compiler::new_with_state(symtab, constants);
                 if let Err(e) = compiler.compile(program) {
                     eprintln!("{}", e);
-                    symtab = compiler.symtab;
-                    constants = compiler.constants;
+                    (symtab, constants) = saved;
                     continue;
                 }
                 let bytecode = compiler.bytecode();
